@@ -66,7 +66,15 @@ func t7diff(a, b *t7node, path string) string {
 
 // ---- dump of the implementation through the public readers
 
+// a defect can make the data cyclic (a value aliased into its own descendant): bound the walk
+var t7depth int
+
 func t7val(v pcommon.Value) *t7node {
+	t7depth++
+	defer func() { t7depth-- }()
+	if t7depth > 100 {
+		return &t7node{leaf: "too-deep"}
+	}
 	switch v.Type() {
 	case pcommon.ValueTypeMap:
 		return &t7node{leaf: "map", kids: []*t7node{t7map(v.Map())}}
